@@ -6,17 +6,9 @@ from props import _fetch, _heap
 
 LEVEL = "proof"
 MODULE = "Phil.Props.C18"
-LEVEL_TEXT = ("Lean theorems about the scope_extract model: every extracted scope at any depth reports the dotted path of the "
-              "names leading to it, and that path extended by the parameter name for its parameters (phil_path_correct, "
-              "phil_path_of_parameter); assignment to a declared name is accepted, to any other non-reserved name rejected with "
-              "an AttributeError spelling path.name (setattr_declared, setattr_guard, setattr_error_path); injecting a new name "
-              "works exactly once (inject_once). The model is tied to /repo by a correspondence run comparing __phil_path__() of "
-              "every node of extract(fetch(...)) incl. every element of .multiple scopes; the oracle checks paths against the "
-              "master, the guard with declared / one-edit / reserved / injected names, and detachment by mutating every extracted "
-              "list and nested object and re-extracting.")
-LEVEL_NOTE = ("Detachment is object identity: validated by mutate-and-re-extract, not proved (partial). Reserved '__x__' names are "
-              "Python protocol attributes and outside the 'rejects' clause. '.type = words' hands out the raw word list by design.")
-TECHNIQUE = "Lean 4 theorems on the parent-chain/guard model + differential correspondence of node paths + mutate-and-re-extract oracle"
+LEVEL_TEXT = "Lean theorems about the scope_extract model: every extracted scope of a fetch result reports the master's dotted path for itself and its parameters, whatever the sources (node_paths_of_extract, fetchRoot_extract_node_paths(_indep), node_paths_multi), declared names are accepted and every other name refused with the full path (declared_names_accepted, fetchRoot_extract_guard, setattr_error_path), inject works exactly once (inject_once_tree); detachment on the heap model: extraction writes nothing of the PHIL heap and any history of appends / item or attribute assignments on extracted values leaves it and later extractions unchanged, with the raw word list of .type=words as the stated exception (extract_frame, detached, detached_without_words, witness words_list_is_handed_out). Tied to /repo by a correspondence run comparing __phil_path__() of every node incl. every element of .multiple scopes; the oracle checks paths, the guard with values of every kind (incl. extracted scopes of another extraction), inject, and detachment by identity and by mutate-and-re-extract."
+LEVEL_NOTE = "extractT (heap) vs extractObj (pure model) equality is checked on examples, not proved. Reserved '__x__' names are Python protocol attributes and outside the 'rejects' clause."
+TECHNIQUE = 'Lean 4 theorems on the parent-chain/guard model and on a value-heap model of extraction + differential correspondence + identity / mutation oracle'
 RULE = ("masters x fetch results x every extracted node (incl. each element of multiple scopes) x attribute names (declared, "
         "misspelt by one edit, injected) x in-place mutations of extracted lists and nested objects; non-trivial = the tree has "
         "a nested scope; distinct = (master, sources)")
